@@ -4,6 +4,7 @@ Lock-step: SetDT8ColourValueTc / SetDT8TcLimit / QueryDT8ColourValue of
 dali/gear/sequences.py against the Lean specification bus (m_gearseq); the
 driver checks each yielded command against the Lean model and evaluates the
 property's post-condition (Spec/GearPost.lean) on what the real code did."""
+from common import exc_name  # noqa: E402
 from props import gearseq_lib as L
 
 ID = "C14"
@@ -218,7 +219,7 @@ def _correspond(ctx, corr, sess, rng):
         except StopIteration as e:
             outcome = "returned %r" % (e.value,)
         except Exception as e:  # noqa
-            outcome = "err " + type(e).__name__
+            outcome = "err " + exc_name(e)
         if sent or not outcome.startswith("err"):
             corr.violate("reject:selector", {"selector": "QueryColourValueDTR(%d)" % n, "defined": False},
                          "rejected before anything is sent", "%d commands sent, %s" % (sent, outcome),
@@ -242,7 +243,7 @@ def replay(ctx, payload):
         try:
             sel = colour.QueryColourValueDTR(n)
         except Exception as e:  # noqa
-            print("QueryColourValueDTR(%d) ->" % n, type(e).__name__, "(rejected at the lookup)")
+            print("QueryColourValueDTR(%d) ->" % n, exc_name(e), "(rejected at the lookup)")
             return False
         sent = []
         try:
@@ -255,7 +256,7 @@ def replay(ctx, payload):
             print("selector", sel, "-> sent", sent, "returned", e.value)
             return True
         except Exception as e:  # noqa
-            print("selector", sel, "-> sent", sent, "raised", type(e).__name__)
+            print("selector", sel, "-> sent", sent, "raised", exc_name(e))
             return bool(sent)
     if not isinstance(sc, dict) or "kind" not in sc:
         print("replay: no scenario recorded; run the quick check")
